@@ -54,6 +54,7 @@ def sched_parts(pid: str, tier: str):
         mons = ("C02",)
         mk("whole-run-N3", Cfg(N=3, resources="tma", activation=True, kwargs=False, monitors=mons), base_req + ["w_deactivated"], 600)
         mk("whole-run-N3-kwargs-async", Cfg(N=3, resources="ta", flavours="a", kwargs=True, sym_seq=False, monitors=mons), base_req, 600)
+        mk("whole-run-N4-threads", Cfg(N=4, resources="t", sym_seq=False, monitors=mons), base_req, 600, 8)
         from harness.dataflow import DCfg, run_dataflow
 
         # the values clause on the front end: what a node receives through keyword / indexed / nested-DAG plumbing
@@ -83,6 +84,11 @@ def sched_parts(pid: str, tier: str):
     elif pid == "C04":
         mons = ("C04",)
         mk("whole-run-N3", Cfg(N=3, resources="tma", flavours="sa", routes="dac", monitors=mons), base_req, 600)
+        from harness.history import HCfg, run_c11
+
+        # main-thread nodes run on the invoking (event-loop) thread in every operation, setup() included: real threads, real loop
+        parts.append(Part("main-thread-identity-histories", P(run_c11, HCfg(N=2, length=2, flavours="sa")), {"N": 2, "length": 2, "operations": "call, setup(...), executor(...)", "flavours": "sync and async",
+                          "what": "every main-thread node function runs on the thread that invoked the operation"}, 900, 8, ["w_reuse"], HIST_FUNCS))
         if not q:
             mk("whole-run-N4", Cfg(N=4, resources="tma", max_async=1, monitors=mons), base_req, 1500, 9)
     elif pid == "C05":
@@ -175,6 +181,9 @@ def graph_parts(pid: str, tier: str):
             parts.append(Part("table-N5", P(run_c07, GCfg(N=5, relabel=True, debug=False, selection=False)), {"N": 5, "labelings": 120}, 1500, 6, ["w_diamond"], GRAPH_FUNCS))
     elif pid == "C12":
         parts.append(Part("closure-N3", P(run_c12, GCfg(N=3, indexed=True)), {"N": 3, "R,X,T": "None, [], singletons, pairs, shared tag, unknown alias (T)", "alias forms": "reference / id / tag, tag clashing with an id"}, 600, 5, ["w_error_case", "w_proper_subgraph", "w_all_three"], GRAPH_FUNCS))
+        from harness.history import HCfg, run_c15
+
+        parts.append(Part("executor-histories-len3", P(run_c15, HCfg(length=3, flavours="s", ops="exec")), {"length": "3+1", "operations": "call, executor create (whole / target), run, failing run", "what": "returned values of an executor re-run after a failed run are the real values of the whole selection (or it refuses)"}, 900, 8, ["w_final_call", "w_rerun_after_failure"], HIST_FUNCS))
         if not q:
             parts.append(Part("closure-N3-setup", P(run_c12, GCfg(N=3, setup=True, indexed=True, combined=True)), {"N": 3, "setup": "first node optionally a setup node, optionally already set up"}, 1500, 5, ["w_error_case"], GRAPH_FUNCS))
     elif pid == "C13":
